@@ -18,6 +18,7 @@ CHas(r, f) == f \in DOMAIN r
 CIf(c, set) == IF c THEN set ELSE {}
 
 CEmpty == [
+    tfMs |-> -1, tfOut |-> -2, tfElapsed |-> 0,
   scn |-> "none", nscn |-> 0, kind |-> "none", cap |-> -1, idx |-> 0,
   \* worker calls: set of records [t, n, op, at (index of call), ret (index of return or 0), m, f]
   calls |-> {},
@@ -90,6 +91,8 @@ CUpd(sh0, ev) ==
          CASE ev.op \in {"dispatch", "idle_wait"} -> [sh EXCEPT !.inDisp = TRUE, !.cbThisDisp = 0, !.lastDrainAt = 0]
            [] ev.op = "schedule" -> [sh EXCEPT !.scheduled = @ \cup {<<ev.f, i>>}]
            [] ev.op = "block_on" -> [sh EXCEPT !.blockNeed = ev.need, !.scheduled = @ \cup {<<0, i>>}]
+           \* block_on(TimeoutFuture::from_duration(ms))
+           [] ev.op = "block_on_timeout" -> [sh EXCEPT !.tfMs = ev.need]
            [] ev.op = "disable" -> [sh EXCEPT !.enabledNow = FALSE]
            [] ev.op = "enable" -> [sh EXCEPT !.enabledNow = TRUE]
            [] ev.op = "remove" -> [sh EXCEPT !.execGone = sh.kind = "exec"]
@@ -100,6 +103,8 @@ CUpd(sh0, ev) ==
            [] ev.op = "snap" -> [sh EXCEPT !.occupied = ev.occupied]
            [] ev.op = "run" -> [sh EXCEPT !.runRet = i]
            [] ev.op = "block_on" -> [sh EXCEPT !.runRet = i, !.blockOut = IF CHas(ev, "out") THEN ev.out ELSE -2]
+           [] ev.op = "block_on_timeout" -> [sh EXCEPT !.runRet = i, !.tfOut = IF CHas(ev, "out") THEN ev.out ELSE -2,
+                                                       !.tfElapsed = IF CHas(ev, "elapsed_us") THEN ev.elapsed_us ELSE 0]
            [] OTHER -> sh
     [] ev.e = "iter" -> [sh EXCEPT !.iters = Append(@, i)]
     [] ev.e = "poll" -> [sh EXCEPT !.polls = @ \cup {<<ev.f, i, ev.woken>>}]
@@ -211,6 +216,11 @@ SigEndViol(sh) ==
      \cup CIf(usesRun /\ pair /\ (sh.loopStuck \/ sh.runRet = 0), {<<"C11", "run_did_not_return_after_stop_and_wakeup">>})
      \cup CIf(usesRun /\ pair /\ sh.runRet # 0 /\ itersAfter > 1, {<<"C11", "more_than_one_iteration_after_stop">>})
      \cup CIf(usesRun /\ sh.runRet # 0 /\ sh.stopCalls = {}, {<<"C11", "run_returned_without_stop">>})
+     \* block_on(TimeoutFuture): completes (woken by the loop's own timer source), never before the duration is over,
+     \* whatever spurious wake-ups arrive
+     \cup CIf(sh.tfMs >= 0 /\ sh.stopCalls = {} /\ (sh.loopStuck \/ sh.tfOut # 0), {<<"C11", "block_on_timeout_future_did_not_complete">>})
+     \cup CIf(sh.tfMs >= 0 /\ sh.tfOut = 0 /\ sh.tfElapsed < sh.tfMs * 1000,
+              {<<"C11", "block_on_timeout_future_completed_early">>, <<"C05", "fired_early">>})
 
 CViol(sh, ev) ==
   CASE ev.e = "cb" /\ sh.kind = "ping" -> PingCbViol(sh)
